@@ -137,8 +137,13 @@ def _specs(case):
     return "([" + ";".join(_spec(o) for o in case["ops"]) + "]%N)"
 
 
+def _ng(case):
+    """number of groups as the harness derives it: highest group id used + 1"""
+    return max(o[1] for o in case["ops"]) + 1
+
+
 def coq_model(case):
-    return "model_line %d %d %s" % (case["nm"], case["ng"], _specs(case))
+    return "model_line %d %d %s" % (case["nm"], _ng(case), _specs(case))
 
 
 def _nums(s):
@@ -187,7 +192,7 @@ def coq_oracle(case, impl):
         obs.append("mkObs %d [%s] %s [%s] [%s]" % (
             _outcome_code(out), ";".join(str(x) for x in _nums(deps)), _entries(pre),
             ";".join(_entries(p) for p in post.split("/")), ";".join(str(x) for x in _nums(heads))))
-    return "check %d %s ([%s]%%N)" % (case["ng"], _specs(case), ";".join(obs))
+    return "check %d %s ([%s]%%N)" % (_ng(case), _specs(case), ";".join(obs))
 
 
 STATS = {"steps": 0, "steps_in_fragment": 0, "cases_leaving_fragment": 0}
